@@ -3,6 +3,7 @@
 #include "common.hpp"
 #include <cmath>
 #include "libphysica/Linear_Algebra.hpp"
+#include "libphysica/Special_Functions.hpp"
 namespace libphysica
 {
 extern Matrix Householder_Matrix(const Matrix& M);
@@ -193,6 +194,26 @@ static void handler(vh::Reader& r, vh::Out& o)
 		o.f(ev);
 		put_vec(o, v);
 	}
+	else if(op == "scalars")
+	{
+		// the scalar helpers of Special_Functions.cpp: Sign(double), Sign(double, double), Relative_Difference
+		double x = M[0][0], y = M[0][1];
+		o.i(Sign(x));
+		o.i(Sign(y));
+		o.f(Sign(x, y));
+		o.f(Sign(y, x));
+		o.f(Relative_Difference(x, y));
+	}
+	else if(op == "trace")
+		o.f(M.Trace());
+	else if(op == "detg")
+		o.f(M.Determinant());
+	else if(op == "invertible")
+		o.i(M.Invertible() ? 1 : 0);
+	else if(op == "invg")
+		put_mat(o, M.Inverse());
+	else if(op == "householder_steps")
+		put_mat(o, Householder_Matrix(M));
 	else if(op == "det")
 		o.f(M.Determinant());
 	else if(op == "inverse")
